@@ -127,7 +127,7 @@ def run_c18(tier, seed):
         return True
 
     ops = ["assign_nested_larger", "set_scalar", "set_renamed", "set_array_elem", "set_string", "assign_nested", "assign_nested_nested_write", "assign_ref_same", "assign_ref_other",
-           "copy", "move", "move_nested", "move_with_ref", "set_none_ref", "move_nested_of_rebuilt", "grow_then_write_arrays", "assign_nested_other_split"]
+           "copy", "move", "move_nested", "move_with_ref", "set_none_ref", "move_nested_of_rebuilt", "grow_then_write_arrays", "assign_nested_other_split", "move_nested_after_assigning_a_rebuilt_value"]
     L = 2 if tier == "quick" else 3
     hists = list(itertools.product(ops, repeat=L))
     rnd.shuffle(hists)
@@ -285,6 +285,28 @@ def run_c18(tier, seed):
                             bad("move:nested-accepted", history=done, container_built_by=rn)
                         except Exception:  # noqa  (refused)
                             pass
+                elif op == "move_nested_after_assigning_a_rebuilt_value":
+                    # the value assigned to a non-reference field may itself come from copy() / a re-dressed xobject / a dictionary round
+                    # trip / a move: stored as an independent copy *within* the container, the nested part still cannot be moved out
+                    routes = {"copy": lambda: c.b.copy(), "copy_of_copy": lambda: c.b.copy().copy(), "xobject": lambda: type(c.b)(_xobject=c.b.copy()._xobject),
+                              "dict": lambda: type(c.b).from_dict(c.b.to_dict()), "moved": lambda: _moved(c.b.copy(), X)}
+                    for rn, mk in routes.items():
+                        try:
+                            val = mk()
+                            want_b = attr_value(X, val)
+                            c.b = val
+                        except Exception:  # noqa  (this way of building / assigning the value is not what is tested here)
+                            continue
+                        if not eq(_num(attr_value(X, c.b)), _num(want_b)):
+                            bad("nested-assign:value-from-" + rn, history=done)
+                        for tgt in (X.ContextCpu().new_buffer(16), None):
+                            try:
+                                c.b.move(_buffer=tgt)
+                                bad("move:nested-accepted", history=done, value_built_by=rn)
+                            except Exception:  # noqa  (refused)
+                                pass
+                        if not check(c, done + [f"<assigned {rn}>"]):
+                            break
                 elif op == "move_with_ref":
                     for tgt in (X.ContextCpu().new_buffer(16), c._buffer, None):
                         try:
@@ -303,6 +325,11 @@ def run_c18(tier, seed):
                 f"(sampled: {len(hists)}) over {len(ops)} operations; DressInv and the operation contract after every step; distinct by history",
         "exhaustive": False, "violations": _by_key(violations), "samples": [{"history": list(hists[0])}],
     }
+
+
+def _moved(h, X):
+    h.move(_buffer=X.ContextCpu().new_buffer(16))
+    return h
 
 
 def _shape_of(msg):
